@@ -456,7 +456,9 @@ func (dec *Decoder) List(f func() error) (isList bool, err error) {
 	}()
 
 	if dec.listDepth >= maxListDepth {
-		return false, fmt.Errorf("imapwire: exceeded max depth")
+		err := fmt.Errorf("imapwire: exceeded max depth")
+		dec.returnErr(err)
+		return false, err
 	}
 
 	for {
